@@ -190,3 +190,53 @@ where T: Num + palette::bool_mask::HasBoolMask<Mask = bool> {
     ((dl / (kl * sl)) * (dl / (kl * sl)) + (dc / (kc * sc)) * (dc / (kc * sc)) + (dbh / (kh * sh)) * (dbh / (kh * sh))
         + (rt * dc * dbh) / (kc * sc * kh * sh)).sqrt()
 }
+
+// ---- CAM16 forward model: Li, Li, Wang, Zu, Luo, Cui, Melgosa, Brill, Pointer (2017), with XYZ on a 0..100 scale ----
+/// xyz, white on the 0..1 scale (as palette stores them); la = adapting luminance, yb = background luminance factor (0..1),
+/// surround = (c, F, N_c); D computed by the default formula. -> (J, C, h, Q, M, s)
+pub fn cam16_forward<T: Num>(xyz: (T, T, T), white: (f64, f64, f64), la: T, yb: f64, surround: (f64, f64, f64)) -> (T, T, T, T, T, T) {
+    use palette::num::{Exp, Powf, Sqrt, Trigonometry};
+    let k = |v: f64| T::k(v);
+    let m16 = |x: T, y: T, z: T| -> (T, T, T) {
+        (k(0.401288) * x + k(0.650173) * y - k(0.051461) * z,
+         k(-0.250268) * x + k(1.204414) * y + k(0.045854) * z,
+         k(-0.002079) * x + k(0.048952) * y + k(0.953127) * z)
+    };
+    let (c, f, nc) = surround;
+    let (xw, yw, zw) = (k(white.0 * 100.0), k(white.1 * 100.0), k(white.2 * 100.0));
+    let (rw, gw, bw) = m16(xw, yw, zw);
+    let d0 = k(f) * (k(1.0) - k(1.0 / 3.6) * ((-la - k(42.0)) / k(92.0)).exp());
+    let d = T::ite(&T::p_le(&d0, &k(0.0)), k(0.0), T::ite(&T::p_le(&k(1.0), &d0), k(1.0), d0));
+    let dr = |cw: T| d * yw / cw + k(1.0) - d;
+    let (dr_r, dr_g, dr_b) = (dr(rw), dr(gw), dr(bw));
+    let kk = k(1.0) / (k(5.0) * la + k(1.0));
+    let k4 = kk * kk * kk * kk;
+    let fl = k(0.2) * k4 * (k(5.0) * la) + k(0.1) * (k(1.0) - k4) * (k(1.0) - k4) * (k(5.0) * la).powf(k(1.0 / 3.0));
+    let n = k(yb * 100.0) / yw;
+    let z = k(1.48) + n.sqrt();
+    let nbb = k(0.725) * n.powf(k(-0.2));
+    let ncb = nbb;
+    let adapt = |x: T| -> T {
+        let ax = T::ite(&T::p_le(&k(0.0), &x), x, -x);
+        let p = (fl * ax / k(100.0)).powf(k(0.42));
+        let v = k(400.0) * p / (p + k(27.13));
+        T::ite(&T::p_le(&k(0.0), &x), v, -v) + k(0.1)
+    };
+    let (raw, gaw, baw) = (adapt(dr_r * rw), adapt(dr_g * gw), adapt(dr_b * bw));
+    let aw = (k(2.0) * raw + gaw + baw / k(20.0) - k(0.305)) * nbb;
+    let (r, g, b) = m16(xyz.0 * k(100.0), xyz.1 * k(100.0), xyz.2 * k(100.0));
+    let (ra, ga, ba) = (adapt(dr_r * r), adapt(dr_g * g), adapt(dr_b * b));
+    let a = ra - k(12.0) * ga / k(11.0) + ba / k(11.0);
+    let bb = (ra + ga - k(2.0) * ba) / k(9.0);
+    let h0 = bb.atan2(a) * k(180.0 / std::f64::consts::PI);
+    let h = T::ite(&T::p_lt(&h0, &k(0.0)), h0 + k(360.0), h0);
+    let et = k(0.25) * ((h * k(std::f64::consts::PI / 180.0) + k(2.0)).cos() + k(3.8));
+    let big_a = (k(2.0) * ra + ga + ba / k(20.0) - k(0.305)) * nbb;
+    let j = k(100.0) * (big_a / aw).powf(k(c) * z);
+    let q = k(4.0 / c) * (j / k(100.0)).sqrt() * (aw + k(4.0)) * fl.powf(k(0.25));
+    let t = (k(50000.0 / 13.0 * nc) * ncb * et * (a * a + bb * bb).sqrt()) / (ra + ga + k(21.0) * ba / k(20.0));
+    let cc = t.powf(k(0.9)) * (j / k(100.0)).sqrt() * (k(1.64) - k(0.29).powf(n)).powf(k(0.73));
+    let m = cc * fl.powf(k(0.25));
+    let s = k(100.0) * (m / q).sqrt();
+    (j, cc, h, q, m, s)
+}
